@@ -364,6 +364,22 @@ def m_int_try_from(interp, fn, args, st, site, frame):
     return [(ok(args[0]), st), (err(Top("try-from-int-error")), st2)]
 
 
+def m_op_assign(interp, fn, args, st, site, frame):
+    """std AddAssign / SubAssign / MulAssign on Instant / Duration: *a = op(*a, b) as a symbolic node"""
+    a = args[0]
+    if not isinstance(a, Ref):
+        return None
+    base = st.heap.get(a.addr)
+    if base is None:
+        return None
+    old = interp.get_at(base, a.path)
+    name = fn["path"].split("::")[-1].replace("_assign", "")
+    owner = "Instant" if "Instant" in fn["full"].split(" as ")[0] else "Duration"
+    st2 = st.fork()
+    st2.heap[a.addr] = interp.set_at(base, a.path, Adt("fn:%s::%s" % (owner, name), 0, (old, args[1])))
+    return [(UNIT, st2)]
+
+
 def m_identity(interp, fn, args, st, site, frame):
     return [(args[0], st)]
 
@@ -459,6 +475,7 @@ BASE_MODELS = [
     (r"^std::result::Result::<.*>::ok$", m_res_ok),
     (r"^std::result::Result::<.*>::is_ok$|^std::result::Result::<.*>::is_err$", m_res_is_ok),
     (r"as std::clone::Clone>::clone$", m_clone),
+    (r"^<std::time::(Instant|Duration) as std::ops::(Add|Sub|Mul)Assign<.*>>::(add|sub|mul)_assign$", m_op_assign),
     (r"^std::option::Option::<.*>::(unwrap|expect)$|^std::result::Result::<.*>::(unwrap|expect)$", m_unwrap),
     (r"^<(u8|u16|u32|u64|usize) as std::convert::TryInto<(u8|u16|u32|u64|usize)>>::try_into$|TryFrom<(u8|u16|u32|u64|usize)> for (u8|u16|u32|u64|usize)>::try_from$", m_int_try_from),
     (r"^<I as std::iter::IntoIterator>::into_iter$", m_identity),
